@@ -5,16 +5,18 @@ from checks.actor_common import PINS as ACTOR_PINS
 TRUSTED = [
     "Coq 8.16.1 kernel (coqc; coqchk in the thorough tier); vm_compute only in the legacy refutation and the example",
     "axioms: none expected (Print Assumptions must report Closed under the global context for every theorem)",
-    "hand-written models coq/core/{Orswot,Actor,Cluster}.v: N nodes x one keyspace; events = client mutation with the set of "
+    "hand-written models coq/core/{Orswot,Actor,Cluster,Distributor,TsDiff,PollerPlan}.v: N nodes x one keyspace; events = client mutation with the set of "
     "acknowledging replicas, batch delivery, complete exchange, removal half, fetch+modification half, purge, restart; every "
     "node is driven only through the actor handlers (source 0 = client/replication, source 1 = repair)",
-    "extraction: ExtrOcamlBasic only; OCaml driver ocaml/core/modelrun.ml (run_cluster) keeps link states, pending batches "
-    "and exchange slots and feeds the stamps the implementation's clocks drew and the selector's choice into the model",
+    "extraction: ExtrOcamlBasic only; OCaml driver ocaml/core/modelrun.ml (run_cluster) keeps link states, the batches the "
+    "executor assembles itself (`B` events) and exchange slots, runs the extracted task distributor (Distributor.v: d_register / d_tick / "
+    "tick_events) for the registrations and the `T` events, and feeds the stamps the implementation's clocks drew and the selector's "
+    "choice into the model",
     "Rust executor harness/hx-ec (hx-cluster): 2-4 real in-process nodes (KeyspaceGroup, ConsistencyService, ReplicationService, "
     "real ReplicatedStoreHandle::put/put_many/del/del_many with a real node selector, real ConsistencyClient::apply_batch, real "
     "poller code through verif::repair_peers / exchange_*), in-process RPC transport hook (no OS sockets), injected wall clock",
-    "not exercised: chitchat membership, the timers that trigger batches/repairs/purges, the task distributor's own batching "
-    "loop (batches are assembled by the executor from the mutations the handle registered), hyper/TCP",
+    "not exercised: chitchat membership, the timers that trigger repairs and purges, hyper/TCP (the task distributor's own batching "
+    "loop runs for real in the distributor schedules: `T` = its interval elapses on the paused clock)",
 ]
 
 PINS = ACTOR_PINS + [
@@ -42,4 +44,8 @@ def run_cluster_check(ck, prop_file, focus, nontrivial, rule, assumptions, level
                 ck.correspondence("hx-cluster", "cluster", "hx-ec", extra_args=["--replay", f], name="cluster-corpus",
                                   nontrivial=nontrivial)
         ck.correspondence("hx-cluster", "cluster", "hx-ec", extra_args=["focus=" + focus], nontrivial=nontrivial)
+        if focus == "c01":
+            # the poller's sync plan: the real KeyspaceTracker (get_diff / set_keyspace / remove_node) against TsDiff.v / PollerPlan.v
+            ck.correspondence("hx-tsdiff", "tsdiff", "hx-ec", name="tsdiff",
+                              nontrivial=lambda c, r: r not in ("-", "") and ("," in r or "|" in r))
     ck.finish(level=level, rule=rule, trusted_base=TRUSTED, assumptions=assumptions)
